@@ -10,11 +10,16 @@ EXPLANATION = (
     "either by a forward abstract interpretation with a difference-bound domain over access paths (branch refinement, contracts for "
     "memchr/position/get/first/min/saturating ops/slicing, function return summaries, excluded-variant tracking) or by one of a closed "
     "list of checked axioms (AX1-AX8, rqverif/panics.py). (R2) Every allocation size in that closure is bounded by a small constant or "
-    "by the length of an input slice. (R3) The closure has no recursion. Not decided: termination of the parse_filepatch / parse_patch "
-    "loops (needs a progress measure on the remaining input), memory proportionality beyond R2, and crash freedom of the whole tool "
-    "(the thorough tier lists the undischarged sites outside the parser for information)."
+    "by the length of an input slice. (R3) The closure has no recursion. (R4) Every loop in the closure makes progress: it draws from a "
+    "finite std iterator, or the range engine proves a measure strictly smaller at every back edge than at the loop head (the length of "
+    "the remaining input in parse_hunk and parse_hunks, through the summaries of the sub-parsers: strip_prefix takes exactly the "
+    "needle off, s[a..] is a shorter by a, map_err / map keep the remainder) or strictly larger and bounded by a length the loop does "
+    "not change (the index in parse_c_string). Not decided: termination of the loops of parse_filepatch and parse_patch (reported as "
+    "undecided with the reason: facts conditional on the returned PatchLine variant resp. a value-level argument about the "
+    "extended_headers flag), memory proportionality beyond R2, and crash freedom of the whole tool (the thorough tier lists the "
+    "undischarged sites outside the parser for information)."
 )
-LEVEL_NOTE = "Undecided: loop termination; panics outside the parser closure (hunk application arithmetic, diagnostics)."
+LEVEL_NOTE = "Undecided: termination of two of the seven parser loops; panics outside the parser closure (hunk application arithmetic, diagnostics)."
 
 
 def describe(o):
@@ -67,6 +72,8 @@ def run(ck):
     scope2, obl2, an2 = run_scope(ck, [rs.id], "C11-R1", "read_series_file", 0)
     for ax, fid in getattr(an, "assumed", []):
         ck.info("C11-R1", "assumed summary %s for %s" % (ax, fid), panics.AXIOMS[ax])
+    # ---- R4 termination -------------------------------------------------------------------------------
+    r4_termination(ck, [(scope, an), (scope2 - scope, an2)])
     # ---- R2 allocations -------------------------------------------------------------------------------
     allocs = [o for o in obl + obl2 if o.kind == "alloc"]
     ck.count("allocation sites with a size argument", len(allocs))
@@ -82,6 +89,44 @@ def run(ck):
     selfrec = [f for f in (scope | scope2) if f in cg.callees(f)]
     ck.require(not rec and not selfrec, "C11-R3", "no recursion in the parser closure",
                "recursive functions: %s" % (rec + [[f] for f in selfrec]), pp.where(), ok_detail="%d functions, call graph acyclic" % len(scope | scope2))
+
+
+# Loops whose termination the range engine cannot show today; each was read and is believed to terminate for the reason given.  They
+# are reported as undecided (information), everything else in the parser closure must be proven.
+UNDECIDED_LOOPS = {
+    "libpatch::patch::unified::parser::parse_filepatch":
+        "every iteration takes the remainder of parse_patch_line / parse_git_patch_line, which consume at least one line unless they "
+        "answer EndOfPatch, and that arm returns; showing it needs facts conditional on the variant of the returned PatchLine",
+    "libpatch::patch::unified::parser::parse_patch":
+        "every iteration takes the remainder of parse_filepatch, which has consumed at least one metadata line or hunk header when it "
+        "answers Ok; that rests on the extended_headers flag having been set by an earlier iteration (value-level argument)",
+}
+
+
+def r4_termination(ck, scopes):
+    """C11-R4: every loop in the parser / series-reader closure makes progress: it draws from a finite std iterator, or the range
+    engine proves a measure (length of the remaining input, an unsigned counter) strictly smaller at every back edge than at the
+    loop head - or strictly larger and bounded by something the loop does not change."""
+    from .. import progress
+    prog, cg = ck.prog, ck.cg
+    rule = "C11-R4"
+    n = nproved = 0
+    for scope, an in scopes:
+        for fn, head, kind, ok, detail in progress.check_scope(prog, cg, scope, an):
+            n += 1
+            where = fn.where(fn.blocks[head]["term"])
+            loops_here = sorted(h for h in __import__("rqverif.cfg", fromlist=["x"]).loops(fn))
+            inst = "loop %d of %s makes progress" % (loops_here.index(head) + 1, fn.id)
+            if ok:
+                nproved += 1
+                ck.ok(rule, inst, detail, where)
+            elif fn.id in UNDECIDED_LOOPS:
+                ck.info(rule, inst, "undecided: %s (%s)" % (UNDECIDED_LOOPS[fn.id], detail[:160]))
+            else:
+                ck.violate(rule, inst, "termination is not shown: %s - on some input the parser could spin forever instead of returning a patch "
+                           "or an error" % detail[:400], where)
+    ck.count("loops in the parser and series-reader closures", n)
+    ck.floor(rule, "loops shown to make progress", nproved, 5)
 
 
 def run_thorough(ck):
